@@ -73,6 +73,9 @@ type Lowerer struct {
 	labelSeen map[string]bool
 	mapsHavocked bool
 	pendingFrame func()
+	assumedIn *Block
+	assumed map[string]bool
+	afterCall []func()
 }
 
 func (l *Lowerer) info() *types.Info { return l.fr.fi.Pkg.TypesInfo }
@@ -116,6 +119,19 @@ func (l *Lowerer) exprText(e ast.Node) string {
 func (l *Lowerer) emit(s *Stmt) {
 	if l.cur == nil {
 		return
+	}
+	if s.Kind == SAssume {
+		// drop verbatim repetitions of a fact within a straight-line stretch
+		key := s.E.String()
+		if l.assumedIn != l.cur || l.assumed == nil {
+			l.assumedIn, l.assumed = l.cur, map[string]bool{}
+		}
+		if l.assumed[key] {
+			return
+		}
+		l.assumed[key] = true
+	} else if s.Kind != SAssert {
+		l.assumed = nil
 	}
 	l.cur.Stmts = append(l.cur.Stmts, s)
 }
@@ -246,8 +262,9 @@ func (l *Lowerer) wf(v *Term, t types.Type) {
 		}
 	case *types.Slice:
 		r := l.p.reg
+		// A-arch: no slice is longer than 2^56 elements (the amd64 address space is 2^47 bytes)
 		l.assume(And(Le(IntLit(0), r.sLen(v)), Le(r.sLen(v), r.sCap(v)), Le(IntLit(0), r.sOff(v)),
-			Implies(r.sNil(v), Eq(r.sLen(v), IntLit(0)))))
+			Le(r.sCap(v), IntPow2(56)), Implies(r.sNil(v), Eq(r.sLen(v), IntLit(0)))))
 	case *types.Pointer, *types.Map, *types.Chan, *types.Signature, *types.Interface:
 		l.f.declare("$alloc", "Int")
 		if l.oldRename == nil {
@@ -315,7 +332,7 @@ func (l *Lowerer) load(pl *place) *Term {
 			var args []*Term
 			for i := 0; i < st.NumFields(); i++ {
 				f := st.Field(i)
-				sub := &place{kind: pHeap, ref: pl.ref, owner: pl.owner, path: pl.path + "." + f.Name(), typ: f.Type()}
+				sub := &place{kind: pHeap, ref: pl.ref, owner: pl.owner, path: joinPath(pl.path, f.Name()), typ: f.Type()}
 				args = append(args, l.load(sub))
 			}
 			if len(args) == 0 {
@@ -355,6 +372,25 @@ func (l *Lowerer) load(pl *place) *Term {
 	panic("load of blank place")
 }
 
+func hasBound(t *Term) bool {
+	if t.Op == "bound" {
+		return true
+	}
+	for _, a := range t.Args {
+		if hasBound(a) {
+			return true
+		}
+	}
+	return false
+}
+
+func joinPath(a, b string) string {
+	if a == "" {
+		return b
+	}
+	return a + "." + b
+}
+
 func isPointer(t types.Type) bool {
 	_, ok := types.Unalias(t).Underlying().(*types.Pointer)
 	return ok
@@ -363,10 +399,17 @@ func isPointer(t types.Type) bool {
 // wfLoad: well-formedness for values loaded from memory (skip struct aggregates).
 func (l *Lowerer) wfLoad(v *Term, t types.Type) {
 	if l.spec {
-		// in specs only integer ranges and slice shape are harmless and useful
-		if _, _, ok := intRange(t); ok {
+		// in specs: type facts of the state (integer ranges, slice shape) for closed terms only
+		if hasBound(v) || l.cur == nil {
 			return
 		}
+		if isRefLike(t) {
+			return
+		}
+		saved := l.guard
+		l.guard = nil
+		l.wf(v, t)
+		l.guard = saved
 		return
 	}
 	l.wf(v, t)
@@ -382,7 +425,7 @@ func (l *Lowerer) store(pl *place, v *Term) {
 		if st, _ := structOf(pl.typ); st != nil && !l.p.isOpaqueStruct(pl.typ) && !isPointer(pl.typ) {
 			for i := 0; i < st.NumFields(); i++ {
 				f := st.Field(i)
-				sub := &place{kind: pHeap, ref: pl.ref, owner: pl.owner, path: pl.path + "." + f.Name(), typ: f.Type()}
+				sub := &place{kind: pHeap, ref: pl.ref, owner: pl.owner, path: joinPath(pl.path, f.Name()), typ: f.Type()}
 				l.store(sub, App(structAccessor(v.Sort, f.Name()), l.p.sortOf(f.Type()), v))
 			}
 			return
@@ -439,6 +482,10 @@ func (l *Lowerer) mapVars(mt *types.Map) (dom, val, card *Term) {
 // identifiers and scopes
 
 func (l *Lowerer) localVar(obj types.Object) string {
+	return l.localVarNamed(obj, l.p.sortOf(obj.Type()))
+}
+
+func (l *Lowerer) localVarNamed(obj types.Object, sort string) string {
 	for fr := l.fr; fr != nil; fr = fr.parent {
 		if n, ok := fr.objVar[obj]; ok {
 			return n
@@ -455,8 +502,85 @@ func (l *Lowerer) localVar(obj types.Object) string {
 		}
 	}
 	l.fr.objVar[obj] = name
-	l.f.declare(name, l.p.sortOf(obj.Type()))
+	if sort == "Int" && l.isBoxed(obj) {
+		return name
+	}
+	l.f.declare(name, sort)
 	return name
+}
+
+// boxedLocals: local struct variables whose address is taken (explicitly or by calling a
+// pointer-receiver method) are modelled as heap objects.
+func (p *Prog) boxedLocals(fi *FuncInfo) map[types.Object]bool {
+	if b, ok := p.boxedCache[fi]; ok {
+		return b
+	}
+	out := map[types.Object]bool{}
+	p.boxedCache[fi] = out
+	if fi.Body == nil {
+		return out
+	}
+	info := fi.Pkg.TypesInfo
+	mark := func(e ast.Expr) {
+		id, ok := ast.Unparen(e).(*ast.Ident)
+		if !ok {
+			return
+		}
+		v, ok := info.ObjectOf(id).(*types.Var)
+		if !ok || v.IsField() || v.Pkg() == nil || v.Parent() == v.Pkg().Scope() {
+			return
+		}
+		if st, _ := structOf(v.Type()); st != nil && !isPointer(v.Type()) && !p.isOpaqueStruct(v.Type()) {
+			out[v] = true
+		}
+	}
+	ast.Inspect(fi.Body, func(n ast.Node) bool {
+		switch x := n.(type) {
+		case *ast.UnaryExpr:
+			if x.Op == token.AND {
+				mark(x.X)
+			}
+		case *ast.SelectorExpr:
+			if sel := info.Selections[x]; sel != nil && sel.Kind() == types.MethodVal {
+				if sig, ok := sel.Obj().Type().(*types.Signature); ok && sig.Recv() != nil && isPointer(sig.Recv().Type()) && !isPointer(sel.Recv()) {
+					mark(x.X)
+				}
+			}
+		}
+		return true
+	})
+	return out
+}
+
+func (l *Lowerer) isBoxed(obj types.Object) bool {
+	for fr := l.fr; fr != nil; fr = fr.parent {
+		if l.p.boxedLocals(fr.fi)[obj] {
+			return true
+		}
+		for fi := fr.fi.Parent; fi != nil; fi = fi.Parent {
+			if l.p.boxedLocals(fi)[obj] {
+				return true
+			}
+		}
+	}
+	return false
+}
+
+// boxedPlace returns the heap place of a boxed local; the reference variable is <name>$ref.
+func (l *Lowerer) boxedPlace(v *types.Var) *place {
+	name := l.localVarNamed(v, "Int") + "$ref"
+	l.f.declare(name, "Int")
+	_, stt := structOf(v.Type())
+	return &place{kind: pHeap, ref: V(name, "Int"), owner: l.p.structName(stt), path: "", typ: stt}
+}
+
+// declareBoxed allocates the object behind a boxed local at its declaration.
+func (l *Lowerer) declareBoxed(v *types.Var) *place {
+	pl := l.boxedPlace(v)
+	r := l.alloc()
+	l.assign(pl.ref.Name, "Int", r)
+	l.emit(&Stmt{Kind: SAllocZero, Struct: pl.owner, Ref: r})
+	return pl
 }
 
 func (l *Lowerer) pushEnv(m map[string]envEntry) { l.env = append(l.env, m) }
@@ -681,6 +805,9 @@ func (l *Lowerer) objTerm(obj types.Object, node ast.Node) (*Term, types.Type) {
 		if o.Parent() == o.Pkg().Scope() {
 			return l.globalVar(o), o.Type()
 		}
+		if l.isBoxed(o) {
+			return l.load(l.boxedPlace(o)), o.Type()
+		}
 		pl := &place{kind: pLocal, name: l.localVar(o), typ: o.Type()}
 		return l.load(pl), o.Type()
 	case *types.Func:
@@ -833,7 +960,11 @@ func (l *Lowerer) placeOfSelector(x *ast.SelectorExpr) *place {
 					obj = l.lookupName(id.Name)
 				}
 				if v, isVar := obj.(*types.Var); isVar && !v.IsField() && v.Parent() != v.Pkg().Scope() {
-					basePl = &place{kind: pLocal, name: l.localVar(v), typ: v.Type()}
+					if l.isBoxed(v) {
+						basePl = l.boxedPlace(v)
+					} else {
+						basePl = &place{kind: pLocal, name: l.localVar(v), typ: v.Type()}
+					}
 					baseTyp = v.Type()
 				}
 			}
@@ -941,6 +1072,9 @@ func (l *Lowerer) placeOf(e ast.Expr) *place {
 			l.f.HeapVars[name] = true
 			return &place{kind: pLocal, name: name, typ: v.Type()}
 		}
+		if l.isBoxed(v) {
+			return l.boxedPlace(v)
+		}
 		return &place{kind: pLocal, name: l.localVar(v), typ: v.Type()}
 	case *ast.SelectorExpr:
 		pl := l.placeOfSelector(x)
@@ -1036,6 +1170,9 @@ func (l *Lowerer) convertTo(v *Term, from, to types.Type) *Term {
 	ts := l.p.sortOf(to)
 	if v.Sort == "Int" && ts == "Real" {
 		return App("to_real", "Real", v)
+	}
+	if v.Sort == "Int" && strings.HasPrefix(ts, "Slice_") && isUntypedNil(from) {
+		return l.p.nilSlice(ts)
 	}
 	return v
 }
@@ -1169,6 +1306,11 @@ func (l *Lowerer) addrOf(x *ast.UnaryExpr) (*Term, types.Type) {
 		return l.trComposite(inner, typ)
 	default:
 		innerT := l.typeOf(x.X)
+		if id, ok := inner.(*ast.Ident); ok {
+			if v, ok := l.info().ObjectOf(id).(*types.Var); ok && l.isBoxed(v) {
+				return l.boxedPlace(v).ref, typ
+			}
+		}
 		if st, _ := structOf(innerT); st != nil && !isPointer(innerT) && !l.p.isOpaqueStruct(innerT) {
 			// &localStruct or &x.f of struct type: only support taking the address of a whole heap object path ""
 			l.unsupported(x, "address of struct variable")
